@@ -14,6 +14,11 @@ pub struct Txt {
     #[serde(with = "crate::util::hexbytes")]
     pub comment: Vec<u8>,
     pub utf8: bool,
+    /// which well-formed third-party extra records accompany the entry (bit set, see
+    /// genf::well_known_extras): Info-ZIP Unicode Path / Comment with a matching CRC and a different
+    /// text, extended timestamp, ... - none of them may change how name and comment are decoded
+    #[serde(default)]
+    pub wk: u8,
 }
 
 struct Col {
@@ -38,6 +43,14 @@ pub fn check_batch(items: &[Txt]) -> Result<(), String> {
             let mut e = EntrySpec::simple(&t.name, 0, Content::Bytes(vec![]));
             e.utf8 = t.utf8;
             e.comment = t.comment.clone();
+            for (k, r) in crate::genf::well_known_extras(&t.name, &t.comment, t.wk).into_iter().enumerate() {
+                if (k + t.wk as usize) % 2 == 0 {
+                    e.central_extra_after.push(r.clone());
+                } else {
+                    e.central_extra_before.push(r.clone());
+                }
+                e.local_extra.push(r);
+            }
             e
         })
         .collect();
@@ -126,7 +139,7 @@ fn check_writer(c: &WCase) -> Result<(), String> {
 }
 
 pub fn run(ctx: &mut Ctx) {
-    ctx.rule("bytes1: all 256 single-byte names and comments x flag set/clear (exhaustive); bytes2: all 65536 two-byte names x flag set/clear (exhaustive); random: byte strings up to 64 KiB incl. invalid UTF-8 (overlong, surrogates, truncated); writer: arbitrary Rust strings through every entry-creating call incl. the encryption option. Oracle: CP437 table from CPython / std from_utf8_lossy (cross-checked against CPython's utf-8 'replace' decoder on a sample). Non-trivial = at least one byte >= 0x80. Seekable reader, streaming reader and stream metadata.");
+    ctx.rule("bytes1: all 256 single-byte names and comments x flag set/clear (exhaustive); bytes2: all 65536 two-byte names x flag set/clear (exhaustive); random: byte strings up to 64 KiB incl. invalid UTF-8 (overlong, surrogates, truncated); writer: arbitrary Rust strings through every entry-creating call incl. the encryption option. Oracle: CP437 table from CPython / std from_utf8_lossy (cross-checked against CPython's utf-8 'replace' decoder on a sample). Non-trivial = at least one byte >= 0x80. Entries optionally carry well-formed third-party extra records (Info-ZIP Unicode Path/Comment with matching CRC and a different text, extended timestamp, Unix, NTFS): decoding must still follow the flag and the header bytes. Seekable reader, streaming reader and stream metadata.");
     ctx.assume("String::from_utf8_lossy is the reference for 'invalid sequences replaced'; a sample is cross-checked against CPython's decoder");
     const B: u64 = 1024;
     // bytes1 + bytes2 : index space = flag(2) x (256 + 65536)
@@ -141,10 +154,10 @@ pub fn run(ctx: &mut Ctx) {
                     let utf8 = k % 2 == 1;
                     let v = k / 2;
                     if v < 256 {
-                        Txt { name: vec![v as u8], comment: vec![v as u8], utf8 }
+                        Txt { name: vec![v as u8], comment: vec![v as u8], utf8, wk: if v % 3 == 0 { 3 } else { 0 } }
                     } else {
                         let w = (v - 256) as u16;
-                        Txt { name: vec![(w >> 8) as u8, w as u8], comment: vec![w as u8, (w >> 8) as u8, b'!'], utf8 }
+                        Txt { name: vec![(w >> 8) as u8, w as u8], comment: vec![w as u8, (w >> 8) as u8, b'!'], utf8, wk: if w % 5 == 0 { (w >> 3) as u8 } else { 0 } }
                     }
                 })
                 .collect();
@@ -167,12 +180,13 @@ pub fn run(ctx: &mut Ctx) {
     ctx.explore::<Vec<Txt>>(
         "random",
         n,
-        &|| proptest::collection::vec((bytestr(), bytestr(), any::<bool>()).prop_map(|(name, comment, utf8)| Txt { name, comment, utf8 }), 1..8).boxed(),
+        &|| proptest::collection::vec((bytestr(), bytestr(), any::<bool>(), prop_oneof![2 => Just(0u8), 1 => Just(1u8), 1 => Just(3u8), 1 => any::<u8>()]).prop_map(|(name, comment, utf8, wk)| Txt { name, comment, utf8, wk }), 1..8).boxed(),
         &|items: &Vec<Txt>, info: &mut Info| {
             info.nontrivial = items.iter().any(|t| !t.name.is_ascii() || !t.comment.is_ascii());
             info.label_if(items.iter().any(|t| t.utf8 && std::str::from_utf8(&t.name).is_err()), "invalid-utf8-with-flag");
             info.label_if(items.iter().any(|t| !t.utf8 && !t.name.is_ascii() && std::str::from_utf8(&t.name).is_ok()), "valid-utf8-without-flag");
             info.label_if(items.iter().any(|t| t.name.len() > 1000), "long");
+            info.label_if(items.iter().any(|t| t.wk & 1 != 0), "with-infozip-unicode-path-extra");
             Verdict::from_result(catch(|| check_batch(items)).unwrap_or_else(|p| Err(format!("PANIC: {p}"))))
         },
     );
